@@ -396,6 +396,10 @@ class Check:
         cov["broken"] = self.broken
         cov["known_findings_hit"] = self.known_hits
         cov["notes"] = self.notes[-60:]
+        if not isinstance(cov.get("exhaustive", False), bool):
+            # a sub-space was enumerated completely: say which, keep the schema's boolean for the run as a whole
+            cov["exhaustive_subspace"] = str(cov["exhaustive"])
+            cov["exhaustive"] = False
         if not cov["samples"]:
             cov["samples"] = ["(no cases run: proof obligations only)"]
         ev = dict(property_id=self.pid, tier=self.tier, seed=self.seed, level=self.level,
